@@ -767,6 +767,83 @@ with bcx_else (n : nat) (e : list stmt) : bool :=
   end.
 Definition bc_pass (p : list stmt) : list stmt := if bcx (fuel_of p) p then p else bcp (fuel_of p) p.
 Definition breakout_common_code_model (p : list stmt) : list stmt := fix5 bc_pass p.
+(* ---- the guard of the partial theorem: every statement moved BEFORE an `if` commutes with the tests it is
+        moved over (the test is a literal, or the statement assigns a constant to a variable the test does
+        not read).  Moves behind the `if` need no guard. *)
+Fixpoint test_reads (t : test) : list var :=
+  match t with Known _ => [] | Unknown _ rd => rd | TNot u => test_reads u end.
+Definition commutes (X : stmt) (t : test) : bool :=
+  match tval t with
+  | Some _ => true
+  | None => match X with
+            | SAssign x (RVal _) => negb (existsb (Nat.eqb x) (test_reads t))
+            | _ => false
+            end
+  end.
+Fixpoint front_tests (n : nat) (s : stmt) : list test :=
+  match n with
+  | O => []
+  | S n' =>
+      match s with
+      | SIf t bb ee =>
+          t :: match bb with x :: _ => front_tests n' x | [] => [] end
+            ++ match ee with y :: _ => front_tests n' y | [] => [] end
+      | _ => []
+      end
+  end.
+Definition heads_tests (n : nat) (l : list stmt) : list test :=
+  match l with x :: _ => front_tests n x | [] => [] end.
+Definition hoist_ok (n : nat) (d : bdec) (t : test) (b e : list stmt) : bool :=
+  negb (bd_front d) ||
+  (commutes (bd_stmt d) t &&
+   match bd_mode d with
+   | MTop => true
+   | _ => forallb (commutes (bd_stmt d)) (heads_tests n b ++ heads_tests n e)
+   end).
+Fixpoint bcs (n : nat) (p : list stmt) : bool :=
+  match n with
+  | O => true
+  | S n' =>
+      match p with
+      | [] => true
+      | s :: rest =>
+          match s with
+          | SIf t b [] =>
+              match bc_implicit p b rest with
+              | Some d =>
+                  if bc_bad d rest then bcs n' b && bcs n' rest
+                  else hoist_ok (fuel_of p) d t b rest
+                       && bcs n' (fixb (bc_strip (fuel_of p) d b)) && bcs n' (bc_strip (fuel_of p) d rest)
+              | None => bcs n' b && bcs n' rest
+              end
+          | SIf t b e =>
+              match bc_decide (fuel_of p) true b e with
+              | Some d =>
+                  if bc_bad d rest then bcs n' b && bcs_else n' e && bcs n' rest
+                  else hoist_ok (fuel_of p) d t b e
+                       && bcs n' (fixb (bc_strip (fuel_of p) d b))
+                       && bcs_else n' (bc_else' (fuel_of p) d e) && bcs n' rest
+              | None => bcs n' b && bcs_else n' e && bcs n' rest
+              end
+          | SLoop h b e => bcs n' b && bcs n' e && bcs n' rest
+          | _ => bcs n' rest
+          end
+      end
+  end
+with bcs_else (n : nat) (e : list stmt) : bool :=
+  match n with
+  | O => true
+  | S n' =>
+      match e with
+      | [SIf t2 b2 e2] => bcs n' b2 && bcs_else n' e2
+      | _ => bcs n' e
+      end
+  end.
+Definition bc_pass_safe (p : list stmt) : bool := bcx (fuel_of p) p || bcs (fuel_of p) p.
+Definition bc_safe (p : list stmt) : bool :=
+  let s1 := bc_pass p in let s2 := bc_pass s1 in let s3 := bc_pass s2 in let s4 := bc_pass s3 in
+  bc_pass_safe p && bc_pass_safe s1 && bc_pass_safe s2 && bc_pass_safe s3 && bc_pass_safe s4.
+
 
 (* ---------------------------------------------------------------------------------------------- *)
 (* correspondence plumbing: (rule number, input program, expected output of the real rule) *)
